@@ -18,7 +18,7 @@ SPEC = {
     "build_comp": "fwconfig",
     "props": ["props/C22.v"],
     "corr": ["corr/FwConfig_corr.v"],
-    "comps": [{"comp": "fwconfig", "n_quick": 1000, "n_thorough": 20000}],
+    "comps": [{"comp": "fwconfig", "n_quick": 600, "n_thorough": 20000}],
     "trusted": ["model/FwConfig.v parse_port_value/parse_port/convert_rule/check_rule/load_list are hand-written mirrors of parsePortValue, parsePort, convertRule and "
                 "AddFirewallRulesFromConfig (tied by correspondence)",
                 "netip.ParsePrefix results are oracle inputs of the correspondence cases",
